@@ -60,7 +60,6 @@ func init() {
 		const pool = "pkg/filters/proxy/pool.go"
 		const comp = "pkg/filters/proxy/compression.go"
 		w.Line("set_option linter.unusedVariables false")
-		w.Line("set_option autoImplicit false")
 		w.Line("open EgVerif.Proxy")
 		w.Line("")
 
